@@ -47,7 +47,9 @@ CstLeaf(v, sf) == [k |-> "cst", w |-> Len(v), sf |-> sf, v |-> v]
 Leaves(W) == <<RegLeaf("a", W, 0), RegLeaf("b", W, 0), RegLeaf("c", W, 1), RegLeaf("d", W, 1),
                CstLeaf(Zero(W), 0), CstLeaf(One(W), 0), CstLeaf(Ones(W), 0), CstLeaf(Ones(W), 1),
                CstLeaf([i \in 1..W |-> IF i = W THEN 1 ELSE 0], 0),
-               CstLeaf(SmallCst(W - 1, W), 0), CstLeaf(SmallCst(W, W), 0)>>
+               CstLeaf(SmallCst(W - 1, W), 0), CstLeaf(SmallCst(W, W), 0),
+               [k |-> "slc", w |-> W, sf |-> 1, pos |-> 1, x |-> RegLeaf("e", W + 2, 0)],
+               [k |-> "slc", w |-> W, sf |-> 0, pos |-> 1, x |-> RegLeaf("f", W + 2, 1)]>>
 
 CmpOps == {"==", "!=", "<", "<=", ">", ">=", "<.", ">=."}
 
